@@ -7,7 +7,7 @@ From Verif Require Import Proofs.OptionTable Proofs.Utf8Proofs Proofs.Cleaning P
 From Coq Require Import Lia ZifyBool ZifyN ZifyNat.
 
 (* ---------- the segment update ---------- *)
-(* the test the option guards, without the option *)
+(* the test the option controls, without the option *)
 Definition would_replace (c : cfg) (u : url) : bool :=
   IsSpecialScheme c u && negb (is_nil (u_path u)) && last_empty (u_path u).
 
@@ -77,19 +77,6 @@ Definition sl (x : N) : bool := (x =? 47) || (x =? 92).
 Definition no_adjacent_sl (inp : list rune) : Prop :=
   forall p, sl (cp_at inp p) = true -> sl (cp_at inp (p + 1)) = true -> False.
 Definition segs_ok (path : list str) : Prop := Forall (fun s => s <> []) path.
-
-Lemma nth_opt_none {A} (l : list A) : forall n, (length l <= n)%nat -> nth_opt l n = None.
-Proof.
-  induction l as [|x l IH]; intros n H; [destruct n; reflexivity|].
-  destruct n; cbn [length] in H; [lia|]. cbn [nth_opt]. apply IH. lia.
-Qed.
-
-Lemma r_cp inp p : (if (n_inp inp <=? p)%Z then rune_error else cp_at inp p) = cp_at inp p.
-Proof.
-  destruct (n_inp inp <=? p)%Z eqn:E; [|reflexivity].
-  unfold cp_at. destruct (p <? 0)%Z; [reflexivity|].
-  rewrite nth_opt_none; [reflexivity|]. unfold n_inp, len in E. lia.
-Qed.
 
 Lemma last_opt_In {A} (l : list A) x : last_opt l = Some x -> In x l.
 Proof.
@@ -282,4 +269,343 @@ Proof.
              first [ assumption
                    | match goal with Hc : _ = true |- _ => rewrite ?andb_false_r in Hc; discriminate Hc end ]).
   all: apply seg_leaf; [exact Hadj|exact P|exact Hbuf|exact SL|exact (slashlike_sl _ _ _ SL)].
+Qed.
+
+Lemma Inv_safe c inp m : Inv c inp m -> m_state m = PathSt -> would_replace c (m_url m) = false.
+Proof.
+  intros [_ HI] E. rewrite E in HI. unfold would_replace.
+  destruct (IsSpecialScheme c (m_url m)) eqn:S; [|reflexivity].
+  destruct (HI eq_refl) as [P _]. rewrite (segs_ok_last _ P). apply andb_false_r.
+Qed.
+
+Lemma state_PathSt_dec (st : state) : {st = PathSt} + {st <> PathSt}.
+Proof. destruct st; (left; reflexivity) || (right; discriminate). Qed.
+
+(* a decidable form of the premise on the input *)
+Fixpoint no_adj_b (l : list N) : bool :=
+  match l with
+  | x :: t => match t with y :: _ => negb (sl x && sl y) | [] => true end && no_adj_b t
+  | [] => true
+  end.
+
+Definition cpn (l : list rune) (n : nat) : N := match nth_opt l n with Some r => rv r | None => rune_error end.
+
+Lemma no_adj_b_spec l : no_adj_b (map rv l) = true ->
+  forall n, sl (cpn l n) = true -> sl (cpn l (S n)) = true -> False.
+Proof.
+  induction l as [|x l IH]; intros H n H1 H2.
+  - destruct n; discriminate H1.
+  - cbn [map no_adj_b] in H. apply andb_true_iff in H as [Ha Hb].
+    destruct n as [|n].
+    + unfold cpn in H1, H2. cbn [nth_opt] in H1, H2. destruct l as [|y l']; [discriminate H2|].
+      cbn [map nth_opt] in *. rewrite H1, H2 in Ha. discriminate Ha.
+    + unfold cpn in H1, H2. cbn [nth_opt] in H1, H2. exact (IH Hb n H1 H2).
+Qed.
+
+Lemma no_adj_b_sound inp : no_adj_b (map rv inp) = true -> no_adjacent_sl inp.
+Proof.
+  intros H p H1 H2. unfold cp_at in H1, H2.
+  destruct (p <? 0)%Z eqn:L; [discriminate H1|].
+  destruct (p + 1 <? 0)%Z eqn:L2; [discriminate H2|].
+  replace (Z.to_nat (p + 1)) with (S (Z.to_nat p)) in H2 by lia.
+  exact (no_adj_b_spec inp H (Z.to_nat p) H1 H2).
+Qed.
+
+Section N6syn.
+  Variable idna_raw : str -> str * bool.
+  Variable c : cfg.
+  Variables b1 b2 : bool.
+  Notation c1 := (with_collapse c b1).
+  Notation c2 := (with_collapse c b2).
+  Hypothesis Hts : c_skipTrailSlash c = false.
+
+  Theorem collapse_neutral_run inp base ov fuel m :
+    no_adjacent_sl inp ->
+    (forall bu, base = Some bu -> segs_ok (removelast (u_path bu))) ->
+    Inv c inp m ->
+    run idna_raw c1 inp base ov fuel m = run idna_raw c2 inp base ov fuel m.
+  Proof.
+    intros Hadj Hbase. apply (collapse_neutral_inv idna_raw c b1 b2 (Inv c inp) inp base ov).
+    - intros m0 Hm. apply (Inv_safe c inp), Hm.
+    - intros m0 m' Hm S E. destruct (state_PathSt_dec (m_state m0)) as [P|P].
+      + exact (Inv_step_PathSt idna_raw c b1 inp base ov m0 m' Hadj P Hm S E).
+      + exact (Inv_step idna_raw c b1 inp base ov m0 m' Hts Hadj Hbase P Hm S E).
+  Qed.
+
+  (* Parse / UrlParse: no url argument, no state override *)
+  Theorem collapse_neutral x base :
+    no_adj_b (runes (cleaned (c_acceptInvalid c) x None)) = true ->
+    (forall bu, base = Some bu -> segs_ok (removelast (u_path bu))) ->
+    BasicParser idna_raw c1 x base None None = BasicParser idna_raw c2 x base None None.
+  Proof.
+    intros Hadj Hbase. apply BasicParser_lift_eq; try reflexivity. intros v i.
+    apply collapse_neutral_run.
+    - apply no_adj_b_sound, Hadj.
+    - intros bu Hb. destruct base as [b0|]; [|discriminate]. cbn [option_map] in Hb. injection Hb as <-.
+      unfold clone. cbn [u_path set_verrs]. apply Hbase. reflexivity.
+    - split; [reflexivity|]. cbn [m_state init_m mk m_url]. cbn [u_path set_input set_verrs start_url empty_url]. constructor.
+  Qed.
+
+  Corollary collapse_Parse x : no_adj_b (runes (clean_sv (c_acceptInvalid c) x)) = true ->
+    Parse idna_raw c1 x = Parse idna_raw c2 x.
+  Proof. intros H. apply to_pres_congr, collapse_neutral; [exact H|discriminate]. Qed.
+
+  Corollary collapse_UrlParse bu x : no_adj_b (runes (clean_sv (c_acceptInvalid c) x)) = true ->
+    segs_ok (removelast (u_path bu)) ->
+    UrlParse idna_raw c1 bu x = UrlParse idna_raw c2 bu x.
+  Proof. intros H Hb. apply to_pres_congr, collapse_neutral; [exact H|]. intros b0 [= <-]. exact Hb. Qed.
+
+  (* SetPathname: the path is emptied first *)
+  Corollary collapse_SetPathname u s : no_adj_b (runes (cleaned (c_acceptInvalid c) s (Some u))) = true ->
+    SetPathname idna_raw c1 u s = SetPathname idna_raw c2 u s.
+  Proof.
+    intros H. unfold SetPathname. destruct (u_opaque u); [reflexivity|]. f_equal.
+    apply BasicParser_lift_eq; try reflexivity. intros v i. apply collapse_neutral_run.
+    - apply no_adj_b_sound, H.
+    - discriminate.
+    - split; [reflexivity|]. cbn [m_state init_m mk m_url]. cbn [u_path set_input set_verrs start_url set_path]. constructor.
+  Qed.
+End N6syn.
+Print Assumptions collapse_neutral_run.
+Print Assumptions collapse_neutral.
+Print Assumptions collapse_SetPathname.
+
+(* the premises hold for non-trivial values: a relative reference against a base whose path has a trailing empty segment *)
+Example collapse_premise_ex :
+  c_skipTrailSlash default_cfg = false /\
+  no_adj_b (runes (clean (bs "../a/./b\c?x//y#//"%string))) = false /\
+  no_adj_b (runes (clean (bs "../a/./b/c"%string))) = true /\
+  exists bu, Parse id_idna default_cfg (bs "http://h/p/q/"%string) = PUrl bu /\ segs_ok (removelast (u_path bu)).
+Proof.
+  split; [reflexivity|]. split; [vm_compute; reflexivity|]. split; [vm_compute; reflexivity|].
+  eexists. split; [vm_compute; reflexivity|]. cbn [u_path removelast]. repeat constructor; discriminate.
+Qed.
+
+(* the premises are needed *)
+Lemma collapse_neutral_refuted : exists x,
+  Parse id_idna (with_collapse default_cfg true) x <> Parse id_idna (with_collapse default_cfg false) x.
+Proof. exists (bs "http://h/a//b"%string). vm_compute. discriminate. Qed.
+
+(* an empty segment inside the base path *)
+Lemma collapse_neutral_base_refuted : exists bu x,
+  no_adj_b (runes (clean x)) = true /\
+  UrlParse id_idna (with_collapse default_cfg true) bu x <> UrlParse id_idna (with_collapse default_cfg false) bu x.
+Proof.
+  destruct (Parse id_idna default_cfg (bs "http://h/a//c"%string)) as [bu| | | |] eqn:E; try (vm_compute in E; discriminate E).
+  exists bu, (bs "x"%string). vm_compute in E. injection E as <-. split; vm_compute; [reflexivity|discriminate].
+Qed.
+
+(* with skipTrailingSlashNormalization a backslash after the host leaves an empty first segment:
+   the input has no two adjacent slash-like code points and still the option matters *)
+Lemma collapse_neutral_skipTrail_refuted : exists x,
+  no_adj_b (runes (clean x)) = true /\
+  Parse id_idna (with_collapse (with_skipTrailSlash default_cfg true) true) x <>
+  Parse id_idna (with_collapse (with_skipTrailSlash default_cfg true) false) x.
+Proof. exists (bs "http:h\a"%string). split; vm_compute; [reflexivity|discriminate]. Qed.
+
+(* ================================================================== *)
+(* The effect of the option                                            *)
+(* ================================================================== *)
+(* no empty segment except possibly the last *)
+Definition Q (p : list str) : Prop := segs_ok (removelast p).
+
+Lemma last_opt_snoc {A} (l : list A) x : last_opt (l ++ [x]) = Some x.
+Proof.
+  induction l as [|y l IH]; [reflexivity|]. cbn [app last_opt]. rewrite IH.
+  destruct (l ++ [x]) eqn:E; [destruct l; discriminate|reflexivity].
+Qed.
+
+Lemma Q_of_ok p : segs_ok p -> Q p.
+Proof. apply segs_ok_removelast. Qed.
+
+Lemma Q_snoc p x : Q (p ++ [x]) <-> segs_ok p.
+Proof. unfold Q. rewrite removelast_last. reflexivity. Qed.
+
+(* when the last segment is not empty, all segments are non-empty *)
+Lemma Q_full p : Q p -> negb (is_nil p) && last_empty p = false -> segs_ok p.
+Proof.
+  induction p as [|x l _] using rev_ind; intros H E; [constructor|].
+  apply Q_snoc in H. apply segs_ok_app; [exact H|].
+  unfold last_empty in E. rewrite last_opt_snoc in E. destruct (l ++ [x]) eqn:F; [destruct l; discriminate|].
+  cbn [is_nil negb andb] in E. destruct x; [discriminate|congruence].
+Qed.
+
+Lemma removelast_replace_last {A} (l : list A) x : removelast (replace_last l x) = removelast l.
+Proof.
+  induction l as [|y l IH]; [reflexivity|]. destruct l as [|z l']; [reflexivity|].
+  change (replace_last (y :: z :: l') x) with (y :: replace_last (z :: l') x).
+  change (removelast (y :: z :: l')) with (y :: removelast (z :: l')).
+  rewrite <- IH. destruct (replace_last (z :: l') x) eqn:E; [|reflexivity].
+  destruct l'; discriminate.
+Qed.
+
+Lemma Q_shorten s p : Q p -> segs_ok (shortenPath s p).
+Proof. apply segs_ok_shorten. Qed.
+
+Lemma seg_end_Q c u buf sl : IsSpecialScheme c u = true -> Q (u_path u) ->
+  Q (u_path (seg_end (with_collapse c true) u buf sl)).
+Proof.
+  intros S H. unfold seg_end. cbv zeta. cbn [c_collapse c_skipDrive with_collapse].
+  change (IsSpecialScheme (with_collapse c true) u) with (IsSpecialScheme c u). rewrite S. cbn [andb].
+  destruct (isDoubleDotPathSegment buf).
+  - destruct (negb sl).
+    + unfold addSegment. cbn [u_path set_path]. apply Q_snoc, Q_shorten, H.
+    + cbn [u_path set_path]. apply Q_of_ok, Q_shorten, H.
+  - destruct (isSingleDotPathSegment buf && negb sl).
+    + destruct (negb (is_nil (u_path u)) && last_empty (u_path u)) eqn:E; cbn [negb]; [exact H|].
+      unfold addSegment. cbn [u_path set_path]. apply Q_snoc, Q_full; assumption.
+    + destruct (negb (isSingleDotPathSegment buf)); [|exact H].
+      destruct (negb (is_nil (u_path u)) && last_empty (u_path u)) eqn:E; cbn [negb].
+      * cbn [u_path set_path]. unfold Q. rewrite removelast_replace_last. exact H.
+      * unfold addSegment. cbn [u_path set_path]. apply Q_snoc, Q_full; assumption.
+Qed.
+
+(* the invariant *)
+Definition K (c : cfg) (m : mstate) : Prop :=
+  match m_state m with
+  | PathSt | QuerySt | FragmentSt | OpaquePath => IsSpecialScheme c (m_url m) = true -> Q (u_path (m_url m))
+  | _ => Q (u_path (m_url m)) /\ (m_eof m = false -> segs_ok (u_path (m_url m)))
+  end.
+
+Lemma K_step idna_raw c inp base ov m m' :
+  (forall bu, base = Some bu -> Q (u_path bu)) ->
+  m_state m <> PathSt -> m_eof m = false ->
+  K c m -> step idna_raw (with_collapse c true) inp base ov m = Cont m' -> K c m'.
+Proof.
+  intros Hbase Hst He0 HK H. destruct m as [st p0 e0 buf atF brF pwF u].
+  unfold step, mherr, handleError in H. cbn [m_state m_ptr m_eof m_buf m_at m_br m_pw m_url] in *.
+  rewrite !r_cp in H. subst e0. cbn [orb] in H.
+  set (p := (p0 + 1)%Z) in *.
+  set (r := cp_at inp p) in *.
+  set (eof := if (n_inp inp <=? p)%Z then true else false) in *.
+  unfold K in HK. cbn [m_state m_url m_eof] in HK.
+  destruct st; try congruence; clear Hst.
+  all: try (destruct HK as [HQ HS]; specialize (HS eq_refl)).
+  all: step_crush H.
+  all: injection H as <-.
+  all: unfold K; cbn [m_state m_eof m_ptr m_buf m_url mk].
+  all: frame_hosts.
+  all: rewrite ?cdp_path.
+  all: cbn_url.
+  all: try assumption.
+  all: try (split; [assumption|intros; assumption]).
+  all: try (intros _; assumption).
+  all: try (intros _; apply Q_of_ok; assumption).
+  all: try (intros _; unfold Q; cbn [removelast]; constructor).
+  all: try (intros _; apply Hbase; first [assumption|reflexivity]).
+  all: try (intros _; apply Q_of_ok, Q_shorten, Hbase; first [assumption|reflexivity]).
+  all: try (intros _; apply Q_snoc; assumption).
+  all: try (split; [first [apply Hbase; first [assumption|reflexivity] | apply Q_snoc; assumption]
+                   | intros E; rewrite E in *; cbn [negb] in *; discriminate]).
+Qed.
+
+Lemma K_step_PathSt idna_raw c inp base ov m m' :
+  m_state m = PathSt -> K c m -> step idna_raw (with_collapse c true) inp base ov m = Cont m' -> K c m'.
+Proof.
+  intros Hst HK H. rewrite (step_PathSt _ _ _ _ _ _ Hst) in H.
+  destruct m as [st p0 e0 buf atF brF pwF u]. cbn [m_state m_ptr m_eof m_buf m_at m_br m_pw m_url] in *.
+  subst st. unfold K in HK. cbn [m_state m_url] in HK.
+  unfold step_path, unit_checks, mherr, handleError in H. cbn [m_state m_ptr m_eof m_buf m_at m_br m_pw m_url] in H.
+  rewrite !r_cp in H. cbn [orb] in H.
+  set (p := (p0 + 1)%Z) in *.
+  set (r := cp_at inp p) in *.
+  step_crush H.
+  all: injection H as <-.
+  all: unfold K; cbn [m_state m_eof m_ptr m_buf m_url mk].
+  all: unfold IsSpecialScheme in *; cbn [u_scheme u_path set_query set_fragment set_verrs];
+       rewrite ?seg_end_scheme; cbn [u_scheme u_path set_query set_fragment set_verrs]; intros Hsp.
+  all: try exact (HK Hsp).
+  all: apply seg_end_Q; [exact Hsp|exact (HK Hsp)].
+Qed.
+
+(* without a state override the machine never returns early with a URL *)
+Lemma step_None_no_RetUrl idna_raw c inp base m u : step idna_raw c inp base None m <> RetUrl u.
+Proof.
+  intros H. destruct m as [st p0 e0 buf atF brF pwF u1].
+  unfold step, mherr, handleError, overridden in H. cbn [m_state m_ptr m_eof m_buf m_at m_br m_pw m_url is_some negb andb] in H.
+  destruct st; step_crush H.
+Qed.
+
+Lemma K_final c m : K c m -> IsSpecialScheme c (m_url m) = true -> Q (u_path (m_url m)).
+Proof. unfold K. destruct (m_state m); intros H S; try exact (H S); exact (proj1 H). Qed.
+
+Section Effect.
+  Variable idna_raw : str -> str * bool.
+  Variable c : cfg.
+  Notation con := (with_collapse c true).
+
+  Lemma run_K inp base fuel : (forall bu, base = Some bu -> Q (u_path bu)) ->
+    forall m u, K c m -> m_eof m = false -> run idna_raw con inp base None fuel m = RUrl u ->
+    IsSpecialScheme c u = true -> Q (u_path u).
+  Proof.
+    intros Hbase. induction fuel as [|f IH]; intros m u HK He H S; [discriminate H|].
+    cbn [run] in H. destruct (step idna_raw con inp base None m) as [m'|u'| | |] eqn:St; try discriminate H.
+    - assert (HK' : K c m').
+      { destruct (state_PathSt_dec (m_state m)) as [P|P].
+        - exact (K_step_PathSt idna_raw c inp base None m m' P HK St).
+        - exact (K_step idna_raw c inp base None m m' Hbase P He HK St). }
+      destruct (m_eof m') eqn:E.
+      + injection H as <-. apply (K_final c); assumption.
+      + exact (IH m' u HK' E H S).
+    - exfalso. exact (step_None_no_RetUrl _ _ _ _ _ _ St).
+  Qed.
+
+  (* with the option on, the path of a special URL has no empty segment except possibly the last one,
+     provided the base path (if a base is used) has that property *)
+  Theorem collapse_effect_BasicParser x base u :
+    (forall bu, base = Some bu -> Q (u_path bu)) ->
+    BasicParser idna_raw con x base None None = RUrl u -> IsSpecialScheme c u = true -> Q (u_path u).
+  Proof.
+    intros Hbase H S.
+    destruct (BasicParser_shape idna_raw base None con x None) as [[u' [e Sh]]|[v Sh]].
+    - rewrite (Sh con) in H by (repeat split). discriminate H.
+    - rewrite (Sh con) in H by (repeat split). unfold machine_run in H.
+      revert H S. apply run_K.
+      + intros bu Hb. destruct base as [b0|]; [|discriminate]. cbn [option_map] in Hb. injection Hb as <-.
+        unfold clone. cbn [u_path set_verrs]. apply Hbase. reflexivity.
+      + unfold K, init_m. cbn [m_state m_url m_eof mk u_path set_input set_verrs start_url empty_url].
+        split; [constructor|intros _; constructor].
+      + reflexivity.
+  Qed.
+
+  Theorem collapse_effect x u :
+    Parse idna_raw con x = PUrl u -> IsSpecialScheme c u = true -> Q (u_path u).
+  Proof.
+    unfold Parse. intros H. destruct (BasicParser idna_raw con x None None None) as [u'| | | |] eqn:B; try discriminate H.
+    injection H as <-. apply (collapse_effect_BasicParser x None u'); [discriminate|exact B].
+  Qed.
+
+  Theorem collapse_effect_UrlParse bu x u : Q (u_path bu) ->
+    UrlParse idna_raw con bu x = PUrl u -> IsSpecialScheme c u = true -> Q (u_path u).
+  Proof.
+    unfold UrlParse. intros Hb H.
+    destruct (BasicParser idna_raw con x (Some bu) None None) as [u'| | | |] eqn:B; try discriminate H.
+    injection H as <-. apply (collapse_effect_BasicParser x (Some bu) u'); [|exact B]. intros b0 [= <-]. exact Hb.
+  Qed.
+End Effect.
+Print Assumptions collapse_effect.
+Print Assumptions collapse_effect_UrlParse.
+
+Example collapse_effect_ex : exists u,
+  Parse id_idna (with_collapse default_cfg true) (bs "http://h//a///b/..//c//"%string) = PUrl u /\
+  u_path u = [bs "a"%string; bs "c"%string; []].
+Proof. eexists. split; vm_compute; reflexivity. Qed.
+
+(* the restrictions are needed: a non-special URL keeps its empty segments ... *)
+Lemma collapse_effect_nonspecial_refuted : exists x u,
+  Parse id_idna (with_collapse default_cfg true) x = PUrl u /\ ~ Q (u_path u).
+Proof.
+  exists (bs "foo://h/a//b"%string). eexists. split; [vm_compute; reflexivity|].
+  cbn [u_path]. unfold Q, segs_ok. cbn [removelast]. intros H. rewrite Forall_forall in H.
+  apply (H []); [right; left; reflexivity|reflexivity].
+Qed.
+
+(* ... and so does a base path that is only copied *)
+Lemma collapse_effect_base_refuted : exists bu x u,
+  UrlParse id_idna (with_collapse default_cfg true) bu x = PUrl u /\ IsSpecialScheme default_cfg u = true /\ ~ Q (u_path u).
+Proof.
+  destruct (Parse id_idna default_cfg (bs "http://h/a//b"%string)) as [bu| | | |] eqn:E; try (vm_compute in E; discriminate E).
+  exists bu, (bs "?q"%string). vm_compute in E. injection E as <-. eexists. split; [vm_compute; reflexivity|]. split; [reflexivity|].
+  cbn [u_path]. unfold Q, segs_ok. cbn [removelast]. intros H. rewrite Forall_forall in H.
+  apply (H []); [right; left; reflexivity|reflexivity].
 Qed.
